@@ -73,11 +73,6 @@ theorem processResponse_Frame (s : State) (r : Remote) (w : Wire) :
     · exact dropOutgoing_Frame s _
     · exact Frame.refl s
 
-theorem processRequest_Frame (s : State) (r : Remote) (w : Wire) :
-    Frame s (processRequest s r w).1 := by
-  unfold processRequest tokenProcessRequest
-  simp only
-  split <;> split <;> exact Frame_of_eq rfl rfl rfl rfl
 
 theorem removeExchange_Frame (s : State) (remote : Remote) (w : Wire) :
     Frame s (removeExchange s remote w).1 := by
@@ -125,6 +120,31 @@ theorem sendMessage_Frame (s : State) (remote : Remote) (mc : Bool) (token : Tok
 theorem sendBare_Frame (s : State) (remote : Remote) (t : MType) (mid : Nat) :
     Frame s (sendBare s remote t mid).1 := sendInitially_Frame _ _ _ _ _
 
+theorem fireEmptyAck_Frame (s : State) (remote : Remote) (token : Token) :
+    Frame s (fireEmptyAck s remote token).1 := by
+  unfold fireEmptyAck
+  split
+  · exact Frame.refl s
+  · exact (Frame_of_eq (s := s) (s' := dropPiggy s remote token) rfl rfl rfl rfl).trans
+      (sendBare_Frame _ _ _ _)
+
+theorem tokenProcessRequest_Frame (s : State) (r : Remote) (w : Wire) :
+    Frame s (tokenProcessRequest s r w).1 := by
+  unfold tokenProcessRequest
+  simp only
+  split <;> exact Frame_of_eq rfl rfl rfl rfl
+
+theorem processRequest_Frame (s : State) (r : Remote) (w : Wire) :
+    Frame s (processRequest s r w).1 := by
+  have h0 := fireEmptyAck_Frame s r w.token
+  unfold processRequest
+  simp only
+  generalize (fireEmptyAck s r w.token).1 = s0 at h0
+  split
+  · refine (h0.trans ?_).trans (tokenProcessRequest_Frame _ r w)
+    exact Frame_of_eq rfl rfl rfl rfl
+  · exact h0.trans (tokenProcessRequest_Frame s0 r w)
+
 theorem recvCode_Frame (s : State) (remote : Remote) (mcLocal : Bool) (w : Wire) :
     Frame s (recvCode s remote mcLocal w).1 := by
   have hp := processResponse_Frame s remote w
@@ -157,14 +177,14 @@ theorem recv_Frame (s : State) (remote : Remote) (mcLocal : Bool) (w : Wire) :
       · exact Frame.refl s
     · exact Frame.refl s
   · dsimp only
-    generalize hs0 : (if isRequest w.code = true then
+    generalize hs0 : (if dedupable w = true then
         ({ s with recent := s.recent ++ [(⟨remote, w.mid, none, s.now + s.cfg.exchangeLifetime⟩ : Recent)] } : State)
         else s) = s0
     have e0 : Frame s s0 := by
       rw [← hs0]; split
       · exact Frame_of_eq rfl rfl rfl rfl
       · exact Frame.refl s
-    generalize hx : (if (w.mtype == MType.ack || w.mtype == MType.rst) = true then removeExchange s0 remote w
+    generalize hx : (if fitsReply w = true then removeExchange s0 remote w
         else (s0, [])) = x
     have h1 : Frame s x.1 := by
       rw [← hx]
